@@ -681,12 +681,19 @@ func (c *child) do(line string) string {
 				return "bad-op"
 			}
 		}
+		before := c.counters()
 		if !c.launch(it) {
 			return "bad-op"
 		}
 		c.items[it.id] = it
 		it.busy = it.task != nil
-		return "spawn " + c.awaitEntry(it) + " cnt=" + c.counters().String()
+		entry := c.awaitEntry(it)
+		if entry == "ok" && (strings.HasSuffix(it.kind, "-med") || strings.HasSuffix(it.kind, "-low")) {
+			// the microtask scheduler closes the clearance signal first and raises the global counter afterwards
+			// (microtasks.go:302-305), so the function can be entered a moment before the counter shows it
+			waitUntil(settleTimeout, func() bool { return c.counters().g > before.g })
+		}
+		return "spawn " + entry + " cnt=" + c.counters().String()
 
 	case "requeue": // requeue <id> <task-kind> <outcomes>: queue a task again after it ran
 		if len(f) != 4 || c.items[f[1]] == nil || c.items[f[1]].task == nil || !strings.HasPrefix(f[2], "task-") ||
